@@ -131,7 +131,7 @@ def run_case(scn, ctx):
                     fh.write(b"<!-- tampered -->")
             elif scn["damage"] == "rm_manifest" and ms:
                 os.remove(w.abs(ms[-1][1]))
-            elif scn["damage"] == "rm_chain":
+            elif scn["damage"] == "rm_chain" and os.path.exists(w.abs(h + "/" + ASC + "/" + CHAIN)):
                 os.remove(w.abs(h + "/" + ASC + "/" + CHAIN))
             elif scn["damage"] == "leftover_partial":
                 # what a create killed mid-write leaves behind in every history of the tree (see C15)
